@@ -714,6 +714,32 @@ def c05(rng):
         cands = [f for f in (1, 2, 4, 8, 0x10, 0x20, 0x40, 0x80) if f & ~fl]
         if bad_flag := (rng.choice(cands) if cands else None):
             out.append((nm + ':keyspend-flag-not-permitted', [bs(T.make_taproot_witness_keyspend(SEEDS[a], sf, S, sigflags='%02x' % bad_flag)), bs(lock)], sf, cfg, False, None, ''))
+    # "all witnesses from the C01 adversarial witness family for native vs non-native": random programs of the VM generator, alone
+    # and in front of the honest witnesses, against both locks of the same (key, script) — the two verdicts must be equal (the three
+    # known footprints D18 / D19 / D23 need a committed script written to look at them; those are the tagged scenarios above)
+    import gen as _gen
+    g_ = _gen.Gen(rng, max_depth=2)
+    Sq = Script.from_src('push d1 push d1 equal')
+    ln_, lnn_ = bs(T.make_taproot_lock(P, Sq, sigflags='00')), bs(T.make_nonnative_taproot_lock(P, Sq, sigflags='00'))
+    honest = [b'', bs(T.make_taproot_witness_keyspend(SEEDS[a], sf, Sq, sigflags='00')), bs(T.make_taproot_witness_scriptspend(P, Sq))]
+    for k_ in range(6):
+        body_ = g_.program(1, 4)
+        pre_ = rng.choice([body_,
+                           bytes([F.opcodes_inverse['OP_DEF'][0], rng.choice([0, 0, 1, 7])]) + len(body_).to_bytes(2, 'big') + body_,      # a definition (handle 0 too), not called
+                           gpush(bytes(rng.getrandbits(8) for _ in range(rng.randint(0, 9)))) + bytes([F.opcodes_inverse['OP_WRITE_CACHE'][0], 1]) +
+                           rng.choice([b'X', b'P', b'R', b'k']) + b'\x01']) if len(body_) < 60000 else body_
+        w_ = pre_ + honest[k_ % 3]
+        if len(w_) > 4000:
+            continue
+        try:
+            vn = F.run_auth_scripts([w_, ln_], dict(sf)); vnn = F.run_auth_scripts([w_, lnn_], dict(sf))
+        except BaseException as e:
+            vn, vnn = 'raise', repr(e)
+        out.append(('adversarial witness (%s): native %s / non-native %s%s' % (('alone', 'before the key-spend witness', 'before the script-spend witness')[k_ % 3],
+                    vn, vnn, '' if vn == vnn else ' -- DIFFER: witness %s cache %s native lock %s non-native lock %s' % (w_.hex(), tsh.cache_str(sf, False), ln_.hex(), lnn_.hex())),
+                    None, None, None, vn == vnn))
+        out.append(('adversarial witness against the native lock', [w_, ln_], sf, tsh.Cfg(), None, None, None))
+        out.append(('adversarial witness against the non-native lock', [w_, lnn_], sf, tsh.Cfg(), None, None, None))
     return out
 
 
